@@ -319,7 +319,7 @@ func buildGenome(r *rand.Rand, sp genomeSpec, id int) *genetics.Genome {
 		}
 		seen[k] = true
 		innov += int64(1 + r.Intn(3)/2)
-		w := math.Round((r.Float64()*4-2)*1000) / 1000
+		w := math.Round((r.Float64()*4-2)*1000)/1000 + 0 // + 0 turns a negative zero into zero (C15 assumption: no negative zero)
 		s.Genes = append(s.Genes, SnapGene{In: in, Out: out, Rec: rec, Innov: innov, W: fbits(w), Mut: fbits(w),
 			En: r.Float64() >= sp.DisabledProb, TraitId: traitFor()})
 	}
